@@ -558,6 +558,14 @@ class Kernel:
                         f"{'f' if ev.is_factory else 'r'}" + ("" if ok else " BADSTAMP"))
         del ctx
 
+    async def settle(self) -> None:
+        """Let everything run until nothing can. (On asyncio a task that has just finished wakes whoever waits for it
+        through a loop callback, which wait_all_tasks_blocked() does not see: look again after yielding.)"""
+        for _ in range(3):
+            await anyio.wait_all_tasks_blocked()
+            await checkpoint()
+        await anyio.wait_all_tasks_blocked()
+
     async def forget(self, c: int) -> None:
         """Nothing refers to context c any more (its block has been left): drop it, so that its memory can be reused."""
         import gc
@@ -594,7 +602,7 @@ class Kernel:
                     n_ev = len(self.events)
                     await self.dispatch(i, op)
                     await self.dispatch(i + 1, ops[i + 1])
-                    await anyio.wait_all_tasks_blocked()
+                    await self.settle()
                     evs = self.events[n_ev:]
                     c1 = self.inject_ctx.get(i)
                     mine = [e for e in evs if e.startswith(f"ev {c1} ")]
@@ -606,7 +614,7 @@ class Kernel:
                 n_ev = len(self.events)
                 n_help = len(self.helper_results)
                 await self.dispatch(i, op)
-                await anyio.wait_all_tasks_blocked()
+                await self.settle()
                 res = list(self.results.get(i, ["blocked"]))
                 # async lookups of earlier operations that returned during this step
                 late = sorted((t, r) for (j, t, r) in self.helper_results[n_help:] if j != i)
@@ -721,7 +729,7 @@ class Worker:
             if res is not None:
                 kern.results[cmd["i"]] = res
 
-    async def frame_in_component(self, cid: int) -> dict[str, Any] | None:
+    async def frame_in_component(self, cid: int, aliased: bool = False) -> dict[str, Any] | None:
         """The operations of this block are done from the start() of a (root) component started in it: the task's
         current context is that component's own context, a wrapper that hands every call on to the block's context."""
         from asphalt.core import Component, start_component
@@ -738,7 +746,14 @@ class Worker:
                 worker.kern.comp_keep.append(mine)      # (kept alive: the address must not be reused within the case)
                 got["exit"] = await worker.frame(cid)
 
-        await start_component(FrameComponent, timeout=None)
+        if aliased:
+            class Root(Component):
+                def __init__(self) -> None:
+                    self.add_component("frame/alt", FrameComponent)
+
+            await start_component(Root, timeout=None)
+        else:
+            await start_component(FrameComponent, timeout=None)
         return got.get("exit")
 
     async def block(self, cmd: dict[str, Any]) -> None:
@@ -764,7 +779,7 @@ class Worker:
                         await checkpoint()
                         kern.tdlog.append("NOT-CANCELLED")
                     if cmd.get("comp"):
-                        exitcmd = await self.frame_in_component(cid)
+                        exitcmd = await self.frame_in_component(cid, cmd["comp"] == "alias")
                     else:
                         exitcmd = await self.frame(cid)
                     n0 = len(kern.tdlog)
